@@ -1,5 +1,5 @@
 """PROPTABLE (C20) and CONVDEST (C20, C07, C10, C19)."""
-from .facts import strip, cval, walk, show, callee_name
+from .facts import strip, cval, walk, walk_own, show, callee_name
 from .core import Result, Broken, norm
 from .typemap import TypeMap, idname
 from .rules_table import same_ctype
@@ -393,4 +393,82 @@ def run_deepcopy(prog, ctx=None):
                    "" if ok else "mpt_%s_fini() frees %s but mpt_%s_init() copies the struct without duplicating it (two objects own one string)" % (kind, p, kind))
         if not freed:
             res.ob("%s:no-owned-pointers" % kind, True, init, init.line)
+    return res
+
+
+def run_flagpath(prog, ctx=None):
+    """FLAGPATH: where a getter special-cases a row on a second field F (`pos == k && obj->F & ...`), every path of the setter branch
+    for that row that reports success has written F — otherwise a stored value is read back as the stale special case"""
+    from .ival import Analysis, AV
+    from .rules_effect import return_cases
+    res = Result("FLAGPATH")
+    n = 0
+    for kind in KINDS:
+        getter = prog.func("mpt_%s_get" % kind)
+        setter = prog.func("mpt_%s_set" % kind)
+        if getter is None or setter is None:
+            continue
+        tab = static_local(prog, getter, lambda u, g: u.types[g["t"]].get("k") == "array" and u.types[u.types[g["t"]]["to"]].get("k") == "record")
+        if tab is None:
+            continue
+        names = [strip(r["elts"][0], all_casts=True).get("s") for r in tab[1]["init"].get("elts", []) if r.get("k") == "init"]
+        name_id = setter.params[1]["id"]
+        obj_id = setter.params[0]["id"]
+        br = name_branches(setter, name_id)
+        stops = {b for b, s, c in br.values()}
+        for bid, b in getter.blocks.items():
+            if not b.term or b.term.get("cond") is None:
+                continue
+            c = strip(b.term["cond"], all_casts=True)
+            if not (c.get("k") == "bin" and c.get("op") == "==" and cval(c["b"]) is not None and strip(c["a"], all_casts=True).get("k") == "ref"):
+                continue
+            idx = cval(c["b"])
+            if strip(c["a"], all_casts=True)["d"].get("dk") != "local" or idx < 0 or idx >= len(names):
+                continue
+            nxt = b.succ[0]
+            rd = set()
+            if nxt is not None and getter.blocks[nxt].term and getter.blocks[nxt].term.get("cond") is not None:
+                for m in walk(getter.blocks[nxt].term["cond"]):
+                    if m.get("k") == "mem":
+                        p, root = mem_path(m)
+                        if isinstance(root, dict) and root.get("k") == "ref" and root["d"].get("id") == getter.params[0]["id"]:
+                            rd.add(p)
+            cand = [lit for lit in br if lit.lower() == (names[idx] or "").lower()]
+            if not rd or not cand:
+                continue
+            F = sorted(rd)[0]
+            start = br[cand[0]][1]
+            reg = region(setter, start, stops)
+            PK = Analysis.PK
+
+            def hook(an, blk, i, el, st, F=F):
+                w = st.get(PK)
+                for m in walk_own(el):
+                    if m.get("k") == "bin" and m["op"].endswith("=") and m["op"] not in ("==", "!=", "<=", ">="):
+                        p, root = mem_path(strip(m["a"], lvalue_to_rvalue=False))
+                        if p == F and isinstance(root, dict) and root.get("k") == "ref" and root["d"].get("id") == obj_id:
+                            w = "wrote"
+                st[PK] = w
+
+            an = Analysis(prog, setter, hook=hook)
+            st0 = an.entry_state()
+            st0[PK] = "no"
+            an.run(start=start, state=st0)
+            bad = []
+            for el, vexpr, pos, parts in return_cases(an, setter):
+                if pos[0] not in reg:
+                    continue
+                for pk, st in parts:
+                    rv = an.ev(vexpr, dict(st), True, setter.blocks[pos[0]].el[pos[1]])
+                    if rv.hi < 0:
+                        continue
+                    if pk != "wrote" and not (rv.lo < 0):
+                        bad.append(el)
+            n += 1
+            ok = not bad
+            res.ob("%s:set %s writes %s on success" % (kind, names[idx], F), ok, setter, bad[0].get("l", 0) if bad else setter.blocks[start].el[0].get("l", 0) if setter.blocks[start].el else setter.line,
+                   "" if ok else "a path of the \"%s\" setter returns success (line %s) without touching %s, which the getter consults for this row: the stored value is read back as the old special case" % (
+                       names[idx], bad[0].get("l"), F))
+    if n < 1:
+        raise Broken("FLAGPATH: no getter special case found")
     return res
